@@ -3,6 +3,6 @@
    Z, N, positive, Q stay Coq datatypes.  Run with coqc from the output directory. *)
 Require Extraction.
 Require Import ExtrOcamlBasic ExtrOcamlString.
-From LV Require Import Machine.Allot.
+From LV Require Import Machine.Allot Ledger.Types Ledger.Core.
 Extraction Language OCaml.
-Extraction "model.ml" allocate new_allotment_checked.
+Extraction "model.ml" allocate new_allotment_checked step init_state.
